@@ -16,7 +16,7 @@ use crate::p_escape::hex;
 use crate::rng::Rng;
 
 #[derive(Clone, Debug)]
-enum El { Prose(String), Blank, Foreign(String, Vec<String>), Test { words: Vec<String>, expect: Vec<String>, code: i32, expect_code: Option<i32>, comment: bool, cfg: bool } }
+enum El { Prose(String), Blank, Foreign(String, Vec<String>), Test { words: Vec<String>, expect: Vec<String>, code: i32, expect_code: Option<i32>, comment: bool, cfg: bool }, Detached }
 
 const WORDS: &[&str] = &["alpha", "beta", "gamma", "two words", "x", "tail  ", "(paren)", "UPPER", "0"];
 
@@ -29,6 +29,7 @@ fn gen_doc(r: &mut Rng, test_lang: &str) -> Vec<El> {
         match r.below(7) {
             0 => d.push(El::Prose(r.pick(&["# A heading", "Some prose.", "## Another", "text with `ticks`", "- item"]).to_string())),
             1 => d.push(El::Blank),
+            3 if r.chance(1, 3) => { d.push(El::Detached); tests += 1; }   // a detached test case: update has nothing to rewrite it from
             2 => {
                 // a block in the OTHER language: with `sh` as the test language this is a ```scrut block that must stay as it is
                 let lang = if r.chance(2, 3) { other.to_string() } else { r.pick(&["text", "bash", "python"]).to_string() };
@@ -67,6 +68,7 @@ fn render(d: &[El], test_lang: &str) -> String {
             El::Prose(l) => { s.push_str(l); s.push('\n'); }
             El::Blank => s.push('\n'),
             El::Foreign(lang, body) => { s.push_str(&format!("```{}\n", lang)); for l in body { s.push_str(l); s.push('\n'); } s.push_str("```\n"); }
+            El::Detached => { s.push_str(&format!("```{} {{detached: true}}\n$ sleep 0.05 &\n```\n", test_lang)); }
             El::Test { words, expect, code, expect_code, comment, cfg } => {
                 s.push_str(&format!("```{}{}\n", test_lang, if *cfg { " {keep_crlf: false}" } else { "" }));
                 if *comment { s.push_str("# a comment\n"); }
@@ -135,7 +137,7 @@ pub fn main(args: &[String], w: &mut dyn Write) {
         let et = run_scrut(&scrut, dir.path(), &tmp, &tst);
         let p = MarkdownParser::new(mk.clone(), &[lang], None);
         let kinds: Vec<&str> = d.iter().filter_map(|e| match e { El::Test { words, expect, code, expect_code, .. } =>
-            Some(if passes(words, expect, *code, *expect_code) { "ok" } else if expect_code.unwrap_or(0) != *code { "code" } else { "output" }), _ => None }).collect();
+            Some(if passes(words, expect, *code, *expect_code) { "ok" } else if expect_code.unwrap_or(0) != *code { "code" } else { "output" }), El::Detached => Some("ok"), _ => None }).collect();
         let norm = |t: &str| if lang == "sh" { swap_lang(t) } else { t.to_string() };
         writeln!(w, "K {}|{}|{}|{}|{}|{}|lang={} update={},{} test={}", hex(norm(&text).as_bytes()), kinds.join(","), hex(norm(&u1).as_bytes()), hex(norm(&u2).as_bytes()),
             cmds(&p, &text), cmds(&p, &u1), lang, e1, e2, et).unwrap();
